@@ -844,8 +844,9 @@ class _ExecutorManagerThread(threading.Thread):
         # Mark the process pool broken so that submits fail right now.
         self.executor_flags.flag_as_broken(bpe)
 
-        # Mark pending tasks as failed.
-        for work_item in self.pending_work_items.values():
+        # Mark pending tasks as failed. Iterate over a snapshot: the feeder
+        # thread removes an item from this dict when it fails to send it.
+        for work_item in list(self.pending_work_items.values()):
             try:
                 work_item.future.set_exception(bpe)
             except InvalidStateError:
